@@ -22,6 +22,9 @@ pub struct Job {
     pub program: Program,
     /// preemption bounds to run, ascending (each is a full exploration up to that bound)
     pub bounds: Vec<usize>,
+    /// additional explorations in deviation-bounded mode (non-default picks at blocking points cost too)
+    #[allow(dead_code)]
+    pub dev_bounds: Vec<usize>,
     pub tag: String,
 }
 
@@ -33,6 +36,9 @@ pub struct FoundViolation {
     pub bound: usize,
     pub choices: Vec<usize>,
     pub tag: String,
+    /// the schedule was recorded in deviation-bounded mode
+    #[serde(default)]
+    pub deviation_mode: bool,
 }
 
 #[derive(Default)]
@@ -292,8 +298,9 @@ pub fn run_jobs(jobs: Vec<Job>, oracle: OracleFn, interest: InterestFn, rc: RunC
                             loop {
                                 if let Some(i) = c.job {
                                     let job = &jobs[i];
-                                    if !c.violated && c.bound_ix < job.bounds.len() {
-                                        let b = job.bounds[c.bound_ix];
+                                    if !c.violated && c.bound_ix < job.bounds.len() + job.dev_bounds.len() {
+                                        let dev = c.bound_ix >= job.bounds.len();
+                                        let b = if dev { job.dev_bounds[c.bound_ix - job.bounds.len()] } else { job.bounds[c.bound_ix] };
                                         c.bound_ix += 1;
                                         let p = Arc::new(job.program.clone());
                                         configure_world(&p);
@@ -304,6 +311,7 @@ pub fn run_jobs(jobs: Vec<Job>, oracle: OracleFn, interest: InterestFn, rc: RunC
                                                 max_executions: rc.max_exec_per_job,
                                                 deadline: Some(rc.deadline),
                                                 max_violations: rc.max_violations_per_job,
+                                                count_free_switches: dev,
                                                 ..Default::default()
                                             },
                                             fixed: None,
@@ -334,7 +342,9 @@ pub fn run_jobs(jobs: Vec<Job>, oracle: OracleFn, interest: InterestFn, rc: RunC
                                 None => return,
                             };
                             let job = &jobs[i];
-                            let b = job.bounds[c.bound_ix.saturating_sub(1)];
+                            let ix = c.bound_ix.saturating_sub(1);
+                            let dev = ix >= job.bounds.len();
+                            let b = if dev { job.dev_bounds[ix - job.bounds.len()] } else { job.bounds[ix] };
                             let acc = std::mem::replace(&mut *acc.lock().unwrap(), new_acc());
                             let mut a = agg.lock().unwrap();
                             a.executions += out.executions;
@@ -359,7 +369,7 @@ pub fn run_jobs(jobs: Vec<Job>, oracle: OracleFn, interest: InterestFn, rc: RunC
                                 a.machinery_errors.push(format!("{} :: {}", job.program.short(), nd));
                             }
                             if out.complete {
-                                *a.completed_at.entry(b).or_insert(0) += 1;
+                                *a.completed_at.entry(if dev { 100 + b } else { b }).or_insert(0) += 1;
                             } else if out.violations.is_empty() {
                                 a.incomplete.push(format!("bound {} {}: {}", b, out.cap.clone().unwrap_or_default(), job.program.short()));
                             }
@@ -373,6 +383,7 @@ pub fn run_jobs(jobs: Vec<Job>, oracle: OracleFn, interest: InterestFn, rc: RunC
                                         bound: v.bound,
                                         choices: v.choices,
                                         tag: job.tag.clone(),
+                                        deviation_mode: dev,
                                     });
                                 }
                             }
@@ -411,7 +422,7 @@ pub fn replay_violation(v: &FoundViolation, oracle: OracleFn) -> (bool, Vec<Find
                 *seen2.lock().unwrap() = Some(trace_hash(&t));
             }
         });
-        let out = rt::replay(rt::ExploreCfg { bound: v.bound, ..Default::default() }, v.choices.clone(), body);
+        let out = rt::replay(rt::ExploreCfg { bound: v.bound, count_free_switches: v.deviation_mode, ..Default::default() }, v.choices.clone(), body);
         if let Some(nd) = out.nondeterminism {
             errs.push(nd);
         }
@@ -449,7 +460,7 @@ pub fn print_trace(v: &FoundViolation) {
         }
         Err(e) => println!("  builder rejected: {}", e),
     });
-    let out = rt::replay(rt::ExploreCfg { bound: v.bound, ..Default::default() }, v.choices.clone(), body);
+    let out = rt::replay(rt::ExploreCfg { bound: v.bound, count_free_switches: v.deviation_mode, ..Default::default() }, v.choices.clone(), body);
     for x in &out.violations {
         println!("  engine: {} {}", x.kind, x.msg);
     }
